@@ -8,9 +8,9 @@ wt=/tmp/vs_$id
 git -C /repo worktree remove --force $wt 2>/dev/null
 git -C /repo worktree add -q --detach $wt HEAD || exit 2
 cd $wt
-/venv/bin/python $src/demo.py > /tmp/vs_$id.clean.log 2>&1; a=$?
+PYTHONPATH=$wt /venv/bin/python $src/demo.py > /tmp/vs_$id.clean.log 2>&1; a=$?
 git apply $src/patch.diff || { echo "$id: patch does not apply"; git -C /repo worktree remove --force $wt; exit 2; }
-/venv/bin/python $src/demo.py > /tmp/vs_$id.patched.log 2>&1; b=$?
+PYTHONPATH=$wt /venv/bin/python $src/demo.py > /tmp/vs_$id.patched.log 2>&1; b=$?
 /venv/bin/python -m pytest -q -p no:cacheprovider -n 6 --timeout=900 --continue-on-collection-errors > /tmp/vs_$id.tests.log 2>&1
 t=$(tail -1 /tmp/vs_$id.tests.log)
 cd /; git -C /repo worktree remove --force $wt
